@@ -28,6 +28,13 @@ def seg(r, flags, mss, win, ttl=64, opts_extra=b""):
     return wiregen.ipv4(r, tcp, ipopts=b"", tos=0, ident=77, fl=2, ttl=ttl).hex()
 
 
+def seg6(r, flags, mss, win, hlim=64):
+    """the same kind of segment over IPv6: version-agnostic records (`*:...:df,id+`) match it through the family mask"""
+    opts = b"\x02\x04" + struct.pack("!H", mss)
+    tcp = wiregen.tcp_header(r, flags=flags, opts=opts, payload=b"", seq=7, ack=0 if flags == 2 else 9, urp=0, win=win, res=0)
+    return wiregen.ipv6(r, tcp, tc=0, fl=0, hlim=hlim).hex()
+
+
 def linux_syn(r, flags=0x02):
     opts = b"\x02\x04" + struct.pack("!H", 1460) + b"\x04\x02" + b"\x08\x0a" + struct.pack("!II", 12345, 0) + b"\x01" + b"\x03\x03\x07"
     tcp = wiregen.tcp_header(r, flags=flags, opts=opts, payload=b"", seq=7, ack=0 if flags == 2 else 9, urp=0, win=14600, res=0)
@@ -51,6 +58,8 @@ def run(ctx):
                 win = peer * 2
             synmss = r.choice([peer, peer, 0, 0, mss])
             pool.append(("T", f"4:{seg(r, flags, mss, win)}:{synmss}:35"))
+            if r.random() < 0.6:
+                pool.append(("T", f"6:{seg6(r, flags, mss, win)}:{synmss}:35"))
         pool.append(("T", f"4:{linux_syn(r)}:0:35"))
         pool.append(("T", f"4:{linux_syn(r, 0x12)}:{r.choice([0, 1460])}:35"))
         pool.append(("M", f"4:{seg(r, 2, r.choice([1460, 1400, 1452]), 8192)}"))
@@ -67,6 +76,9 @@ def run(ctx):
                     mode = r.choice(["", "", "a", "b", "r", "br"])
                 else:
                     mode = r.choice(["", "", "p", "r", "pr"])
+                if kind == "T" and r.random() < 0.2:
+                    # fingerprint, edit the same packet object in place (TTL), fingerprint again
+                    mode += ":" + str(r.choice([54, 60, 33, 1]))
                 steps.append(f"{kind}:{body}:{mode}")
                 if (kind, body) in seen and seen[(kind, body)] < i - 1:
                     interesting = True
